@@ -3,20 +3,20 @@ CONSTANTS
   VALS = {"v1", "v2", "v3", "v4", "v5"}
   FORD <- c_FORD
   TOKENS = {"t1", "t2"}
-  FIX = {"L7", "L8", "FROMTO", "WINDOW", "L26", "RPNIL"}
-  CFGS <- c_CFGS
-  PSS <- c_PSS
+  FIX = {"L7", "L8", "L25S", "FROMTO", "WINDOW", "L26", "RPNIL"}
+  CFGS <- t3_CFGS
+  PSS <- t_PSS1
   PSS2 <- c_PSS2
   TWOMSG = FALSE
   BADBASE = FALSE
   BADNONCE = FALSE
-  MAXH = 4
+  MAXH = 6
   MAXTX = 2
   MAXOPS = 99
   MAXRESTART = 1
-  UPDENDS = {}
-  MAXUPD = 0
-  ADDS = {}
+  UPDENDS = {3}
+  MAXUPD = 2
+  ADDS <- t_ADDS
   SECONDBAD = FALSE
   FAILBUDGET = 99
 VIEW View
